@@ -521,6 +521,7 @@ func runC09(c *Ctx) {
 	defer runC09EndInBody(c)
 	defer runC09AmbiguousEOF(c)
 	defer runC09NoFailureAsEOF(c)
+	defer runC09CompressedFlagDeclared(c)
 	// ---------------------------------------------------------------- C09.5
 	c.Rule("C09.5", "a missing grpc-status is an error", 1)
 	ext := p.MustFunc("grpcExtractErrorFromTrailer")
@@ -755,5 +756,145 @@ func runC09NoFailureAsEOF(c *Ctx) {
 		c.Check(bad == 0, "C09.8", FuncName(fn), "no-failure-as-eof", fn.Pos(),
 			"io.EOF is produced only on paths that recorded no failure",
 			"Read returns io.EOF (at "+at+") on a path that has just recorded/reported a failure: the backend sees a clean end of the request instead of an error, and a unary backend runs on an empty message the client never sent")
+	}
+}
+
+// runC09CompressedFlagDeclared: C09.9 (defect D47).  The envelope decoders accept the 'compressed'
+// flag unconditionally - whether it is legal depends on the headers of the direction: without a
+// declared compression a flagged message is malformed (gRPC: INTERNAL; connect-go: "sent
+// compressed message without compression support").  So after every envelope decode there is a
+// point where 'this envelope is flagged compressed' and 'this direction's compression cell is
+// nil' are both known, and from which an error is produced.
+func runC09CompressedFlagDeclared(c *Ctx) {
+	p := c.P
+	c.Rule("C09.9", "a decoded envelope flagged as compressed is an error when its direction declared no compression", 4)
+	comprF := p.MustField("envelope", "compressed")
+	cliEnvF := p.MustField("operation", "clientEnveloper")
+	srvEnvF := p.MustField("operation", "serverEnveloper")
+	reqCell := p.MustField("clientProtocolDetails", "reqCompression")
+	respCell := p.MustField("serverProtocolDetails", "respCompression")
+	n := 0
+	for _, fn := range SortedFuncs(p.RequestTimeReach()) {
+		if !p.inScope(fn) {
+			continue
+		}
+		ord := 0
+		for _, call := range Calls(fn) {
+			cc := call.Common()
+			if !cc.IsInvoke() || N(cc.Method) != "decodeEnvelope" {
+				continue
+			}
+			var cell *types.Var
+			switch LoadedField(cc.Value) {
+			case cliEnvF:
+				cell = reqCell
+			case srvEnvF:
+				cell = respCell
+			default:
+				continue // a protocol delegating to a sibling's table, not a stream being read
+			}
+			n++
+			ord++
+			construct := "flag-vs-declared"
+			if ord > 1 {
+				construct += "|#" + itoa(ord)
+			}
+			// a block where both facts are known and an error value is made
+			ok := false
+			for _, b := range fn.Blocks {
+				if !call.Block().Dominates(b) {
+					continue
+				}
+				flagged, undeclared := false, false
+				for _, f := range FactsAt(b) {
+					if f.Truth {
+						fld := LoadedField(f.Cond)
+						if fv, isF := f.Cond.(*ssa.Field); isF {
+							fld = FieldOfVal(fv)
+						}
+						if fld == comprF {
+							flagged = true
+						}
+					}
+					if cmp, isCmp := f.AsCmp(); isCmp && cmp.Op == token.EQL && IsNilConst(cmp.Y) && LoadedField(cmp.X) == cell {
+						undeclared = true
+					}
+				}
+				if !flagged || !undeclared {
+					continue
+				}
+				for _, in := range b.Instrs {
+					if ci, isCall := in.(ssa.CallInstruction); isCall {
+						if IsCallTo(ci, "errors.New", "fmt.Errorf", "connectrpc.com/connect.NewError", "malformedRequestError") {
+							ok = true
+						}
+						if sc := ci.Common().StaticCallee(); sc != nil && p.inModule(sc) && isErrorType(sc.Signature.Results().At(sc.Signature.Results().Len()-1).Type()) {
+							ok = true
+						}
+					}
+				}
+			}
+			// or the test lives in a helper that is handed the envelope (or its flag) and the cell
+			if !ok {
+				for _, b := range fn.Blocks {
+					if !call.Block().Dominates(b) {
+						continue
+					}
+					for _, in := range b.Instrs {
+						hc, isCall := in.(ssa.CallInstruction)
+						if !isCall {
+							continue
+						}
+						sc := hc.Common().StaticCallee()
+						if sc == nil || !p.inModule(sc) {
+							continue
+						}
+						cellArg := -1
+						for i, a := range hc.Common().Args {
+							if LoadedField(a) == cell {
+								cellArg = i
+							}
+						}
+						if cellArg < 0 || cellArg >= len(sc.Params) {
+							continue
+						}
+						for _, hb := range sc.Blocks {
+							flagged, undeclared, makesErr := false, false, false
+							for _, f := range FactsAt(hb) {
+								if f.Truth {
+									fld := LoadedField(f.Cond)
+									if fv, isF := f.Cond.(*ssa.Field); isF {
+										fld = FieldOfVal(fv)
+									}
+									if fld == comprF {
+										flagged = true
+									}
+									if pr, isP := f.Cond.(*ssa.Parameter); isP && isBoolType(pr.Type()) {
+										flagged = true
+									}
+								}
+								if cmp, isCmp := f.AsCmp(); isCmp && cmp.Op == token.EQL && IsNilConst(cmp.Y) && strip(cmp.X) == ssa.Value(sc.Params[cellArg]) {
+									undeclared = true
+								}
+							}
+							for _, hin := range hb.Instrs {
+								if ci, isCall := hin.(ssa.CallInstruction); isCall && IsCallTo(ci, "errors.New", "fmt.Errorf", "connectrpc.com/connect.NewError", "malformedRequestError") {
+									makesErr = true
+								}
+							}
+							if flagged && undeclared && makesErr {
+								ok = true
+							}
+						}
+					}
+				}
+			}
+			c.Check(ok, "C09.9", FuncName(fn), construct, call.Pos(),
+				"after this decode, 'flagged compressed' together with 'no compression declared for this direction' produces an error",
+				"the envelope decoded here may be flagged as compressed although "+N(cell)+" is nil (no compression declared): nothing rejects it - the flag is copied to a peer whose headers announce no encoding, or decompression is skipped and the compressed bytes are taken for the message")
+		}
+	}
+	if n < 4 {
+		c.Bad("C09.9", "package", "flag-vs-declared", token.NoPos, "fewer than four envelope decode sites on the data paths ("+itoa(n)+"): shape changed")
 	}
 }
